@@ -38,6 +38,9 @@ func (l lrCfg) value() float64 {
 
 var c17LRs = []lrCfg{{nilCfg: true}, {lr: 0.01}, {lr: 0.5}, {lr: 0}, {lr: -0.3}}
 
+// c17AwkwardLRs: learning rates no narrower type holds (checks_scalararg.go), used by the value-class family.
+var c17AwkwardLRs = []lrCfg{{lr: 0.1}, {lr: 1e-50}, {lr: -2.5e40}, {lr: 123456789.125}, {lr: 1 + 1.0/(1<<40)}, {lr: 3e-320}}
+
 func checkC17(c *core.Ctx) {
 	defer gridC17(c)
 	defer soakC17(c)
@@ -86,7 +89,7 @@ func checkC17(c *core.Ctx) {
 	}
 	for _, cl := range classes {
 		for _, shape := range [][]int{{4}, {2, 2}, {1, 4, 1}} {
-			for li, l := range c17LRs {
+			for li, l := range append(append([]lrCfg{}, c17LRs...), c17AwkwardLRs...) {
 				cl, shape, l := cl, shape, l
 				c.Case(fmt.Sprintf("class/%s/%v/lr%d", cl.name, shape, li), true, func() core.Verdict {
 					w0 := &ref.T{Shape: shape, V: cl.w}
